@@ -104,8 +104,26 @@ func (api *API) decodeBasedOnType(ctx context.Context, b []byte, value reflect.V
 	switch value.Kind() {
 	case reflect.Ptr:
 		if valueType == bigIntPtrType {
-			addrValue := value.Addr()
 			deseri := serializer.NewDeserializer(b)
+			if !value.CanAddr() {
+				// the *big.Int is the destination itself (Decode was called with it): the result is stored in the number
+				// it points to
+				//nolint:forcetypeassert // false positive, we already checked the type via reflect
+				target := value.Interface().(*big.Int)
+				if target == nil {
+					return 0, ierrors.New("can't decode into a nil *big.Int")
+				}
+				var decoded *big.Int
+				deseri.ReadUint256(&decoded, func(err error) error {
+					return ierrors.Wrap(err, "failed to read big.Int from deserializer")
+				})
+				if decoded != nil {
+					target.Set(decoded)
+				}
+
+				return deseri.Done()
+			}
+			addrValue := value.Addr()
 			//nolint:forcetypeassert // false positive, we already checked the type via reflect
 			deseri.ReadUint256(addrValue.Interface().(**big.Int), func(err error) error {
 				return ierrors.Wrap(err, "failed to read big.Int from deserializer")
